@@ -12,14 +12,17 @@ META = {
     'level_text': 'Theorems for all byte streams, all segmentations and all dispatchers: feed_chunks_eq_concat (lines and residual '
                   'buffer depend only on the concatenation), one_reply_per_line, serve_total (whatever the dispatcher returns or '
                   'raises), reply_action_fits (table generated from REQUEST2REPLY, table facts by decide), error_class_is_secop, '
-                  'independent_lines, lines_whole, codec_inverse over an abstract JSON layer.  The models are tied to '
+                  'independent_lines, lines_whole (no frame contains a newline of its own; any number of senders doing acquire / partial writes / release '
+                  'in any interleaving leave a concatenation of whole frames), codec_inverse over an abstract JSON layer.  The models are tied to '
                   'frappy/protocol/interface/{__init__,handler,tcp}.py by a correspondence run on the real TCPRequestHandler over a '
-                  'scripted socket (stub dispatcher doing anything + the real Dispatcher over a small real node), and the Lean '
-                  'monitors judge the bytes the handler actually sent.',
+                  'scripted socket (stub dispatcher doing anything + the real Dispatcher over a small real node; two connections and an updater '
+                  'thread on one real dispatcher under a deterministic scheduler with partial writes), and the Lean monitors judge the bytes '
+                  'actually sent: whole lines, one fitting reply per request line, no events of modules the connection did not subscribe to.',
     'level_note': 'Trusted: Lean kernel + axioms propext/Classical.choice/Quot.sound; Python json and the UTF-8 codec enter the '
-                  'model as parameters with the laws of Spec.C07.LibLaws; strictness of emitted JSON and validity of emitted UTF-8 are '
-                  'tested on the implementation side only; ThreadingTCPServer and the socket are not modelled (a send is an atomic '
-                  'append that succeeds).',
+                  'model as parameters with the laws of Spec.C07.LibLaws; strictness of emitted JSON (judged on runs with the real Dispatcher; '
+                  'what a stub dispatcher hands over is harness input) and validity of emitted UTF-8 are tested on the implementation side only; '
+                  'ThreadingTCPServer and the socket are not modelled (sendall = a sequence of partial writes that succeed; send_lock = a lock '
+                  'acquired only when free).',
     'trusted': [
         'LibLaws: json.loads(json.dumps(x)) == x; json.dumps output is non-empty ASCII without newline that begins and ends with a '
         'printable non-blank character; UTF-8 validity of a text joined by blanks is validity of the parts',
@@ -31,7 +34,7 @@ META = {
     ],
     'modelled_not_verified': [
         'socketserver.ThreadingTCPServer / socket.recv / sendall (scripted fake socket)',
-        'threading.Lock around sendall (send = atomic append of one frame)',
+        'threading.Lock (send_lock): modelled as SendStep.acquire enabled only when nobody holds it; sendall as partial writes by the holder',
         'formatException / formatExtendedStack texts inside error reports (not observed; formatExtendedStack is replaced by a stub during the run because it repr()s every local of the harness frames)',
     ],
     'assumptions': [
@@ -111,6 +114,7 @@ def frame_rec(frame):
 
 
 SECOP_BY_NAME = {}
+_ORIG = {}
 
 
 def secop_by_name():
@@ -212,7 +216,7 @@ class RecordingDispatcher:
             rec.update(r='exc')
             raise
         finally:
-            rec['async'] = [frame_rec(f) for f in self.sock.out[n0:]]
+            rec['async'] = [] if getattr(self, 'concurrent', False) else [frame_rec(f) for f in self.sock.out[n0:]]
         t = triple_rec(reply) if reply else None
         if t is None:
             rec.update(r='garbage')
@@ -273,6 +277,7 @@ def make_real_node(nan):
     root.addHandler(RemoteLogHandler())
     srv = Srv()
     srv.log = root.getChild('srv')
+    srv.rootlog = root
     srv.module_cfg = {'m': {'cls': Mod, 'description': 'a module'}, 'n': {'cls': Mod, 'description': 'another'}}
     seclog = root.getChild('secnode')
     seclog.parent = root
@@ -291,8 +296,10 @@ def _reject(name):
     raise ValueError('not strict JSON: ' + name)
 
 
-def line_flags(frame):
-    """the two implementation-side tests of the statement, per emitted line"""
+def line_flags(frame, check_strict=True):
+    """the two implementation-side tests of the statement, per emitted line; strictness of the data part is tested
+    only when a real frappy layer (the real Dispatcher and datatypes) produced the data: what a stub dispatcher hands
+    over is the harness's own input"""
     try:
         text = frame.decode('utf-8')
         utf8 = True
@@ -300,12 +307,18 @@ def line_flags(frame):
         return [False, True]
     data = (text.rstrip('\n').split(' ', 2) + ['', ''])[2]
     strict = True
-    if data != '':
+    if data != '' and check_strict:
         try:
             json.loads(data, parse_constant=_reject)
         except Exception:
             strict = False
     return [utf8, strict]
+
+
+def async_actions():
+    """hex of the actions of lines that are not replies (same list as the generated table)"""
+    from frappy.protocol.messages import EVENTREPLY, ERRORPREFIX, LOG_EVENT
+    return {hx(a.encode()) for a in (EVENTREPLY, ERRORPREFIX + EVENTREPLY, LOG_EVENT, '_')}
 
 
 def obs_frame(frame):
@@ -323,22 +336,162 @@ def run_impl(case):
     import frappy.protocol.interface.handler as fh
     # the stack dumps inside error reports repr() every local of every frame (including the harness's case lists);
     # their text is not observed (detailed_errors is off, the dict is cleared before sending)
-    fh.formatExtendedStack = lambda *a, **k: ''
-    fh.formatExtendedTraceback = lambda *a, **k: ''
+    if 'stack' not in _ORIG:
+        _ORIG['stack'], _ORIG['tb'] = fh.formatExtendedStack, fh.formatExtendedTraceback
+    detailed = bool(case['disp'].get('detailed'))
+    if detailed:      # the detailed_errors=True path with the real stack dump
+        fh.formatExtendedStack, fh.formatExtendedTraceback = _ORIG['stack'], _ORIG['tb']
+    else:
+        fh.formatExtendedStack = lambda *a, **k: ''
+        fh.formatExtendedTraceback = lambda *a, **k: ''
     chunks = [bytes.fromhex(c) for c in case['chunks']]
     sock = FakeSock(chunks)
     disp = case['disp']
     if disp['kind'] == 'stub':
         d = StubDispatcher(disp['plan'])
     else:
-        d = RecordingDispatcher(make_real_node(disp.get('nan', False)).dispatcher)
+        node = make_real_node(disp.get('nan', False))
+        if disp.get('ts'):
+            # a time stamp handed in from outside (proxy / sea modules relay the remote node's), here not finite
+            node.secnode.modules['m'].announceUpdate('value', 2.0, None, float(disp['ts']))
+        d = RecordingDispatcher(node.dispatcher)
     d.sock = sock
     srv = ServerStub(d)
+    srv.detailed_errors = detailed
     with contextlib.redirect_stdout(io.StringIO()):
         TCPRequestHandler(sock, ('127.0.0.1', 4711), srv)
     died = [e for e in srv.log.errors if e and isinstance(e[0], str) and e[0].startswith('Traceback')]
     return {'outs': sock.out, 'calls': d.calls, 'script': d.script, 'died': bool(died),
             'died_text': died[0][0][-400:] if died else None}
+
+
+# ----------------------------------------------------------------------------------------
+# concurrency: two connections on one real dispatcher + an updater thread, under the deterministic scheduler
+# ----------------------------------------------------------------------------------------
+B_SCRIPT = [b'*IDN?', b'activate n', b'ping b1', b'read n:value', b'change n:_s "bee"', b'ping b2', b'describe n:value',
+            b'do n:_twice 21', b'deactivate n', b'ping b3']
+B_SUBSCRIBED = [b'n']
+
+
+class SchedSock(FakeSock):
+    """scripted socket whose recv and every partial write of sendall are yield points of the scheduler"""
+
+    def __init__(self, sched, name, chunks, piece):
+        super().__init__(chunks)
+        self.sched = sched
+        self.name = name
+        self.piece = piece
+        self.calls = []          # the byte strings handed to sendall
+
+    def recv(self, n):
+        self.sched.yield_(('recv', self.name))
+        return super().recv(n)
+
+    def sendall(self, b):
+        b = bytes(b)
+        self.calls.append(b)
+        for i in range(0, len(b), self.piece):    # sendall hands the frame to the socket in pieces
+            self.sched.yield_(('write', self.name))
+            self.out.append(b[i:i + self.piece])
+
+
+def run_concurrent(case):
+    """connection A gets the (hostile) chunks, connection B a fixed script, a third thread announces updates of module m;
+    all three run under the deterministic scheduler with yield points at recv, at send_lock / dispatcher lock / update lock
+    acquire and release, and at every partial write.  Returns per connection the received byte stream cut into lines."""
+    import random
+    import frappy.modulebase
+    import frappy.protocol.dispatcher
+    import frappy.protocol.interface.handler as fh
+    from frappy.protocol.interface.tcp import TCPRequestHandler
+    from vlib.sched import Scheduler, RandomPolicy
+    fh.formatExtendedStack = lambda *a, **k: ''
+    fh.formatExtendedTraceback = lambda *a, **k: ''
+    s = Scheduler(policy=RandomPolicy(random.Random(case['sched_seed']), case.get('preempt', 0.4)), max_steps=400000)
+    res = {}
+    with contextlib.ExitStack() as stack:
+        for mod in (fh, frappy.protocol.dispatcher, frappy.modulebase):
+            stack.enter_context(s.patched(mod, threading=s.threading))
+        node = make_real_node(False)
+        # the RemoteLogHandler's own lock must be a scheduler lock too: emit() sends (a yield point) while holding it
+        for h in node.rootlog.handlers:
+            h.lock = s.threading.RLock()
+        socks, disps = {}, {}
+        for name, chunks in (('A', [bytes.fromhex(c) for c in case['chunks']]),
+                             ('B', [b''.join(ln + b'\n' for ln in B_SCRIPT)][:1] if case.get('b_one_chunk', True)
+                              else [ln + b'\n' for ln in B_SCRIPT])):
+            sock = SchedSock(s, name, chunks, case.get('piece', 5))
+            d = RecordingDispatcher(node.dispatcher)
+            d.sock = sock
+            d.concurrent = True
+            socks[name], disps[name] = sock, d
+
+        def handler(name):
+            TCPRequestHandler(socks[name], ('127.0.0.1', 1000 + ord(name)), ServerStub(disps[name]))
+
+        def updater():
+            mod = node.secnode.modules['m']
+            for k in range(case.get('updates', 6)):
+                s.yield_(('update', k))
+                mod.announceUpdate('value', 10.0 + k)
+                mod.announceUpdate('s', 'u%d' % k)
+
+        with contextlib.redirect_stdout(io.StringIO()):
+            s.spawn('A', handler, ('A',))
+            s.spawn('B', handler, ('B',))
+            s.spawn('U', updater)
+            out = s.run(wall_timeout=60.0)
+    if out['aborted'] or out['deadlock']:
+        raise RuntimeError(f'concurrent run did not finish: {out}')
+    for name in 'AB':
+        data = b''.join(socks[name].out)
+        lines = data.split(b'\n')
+        res[name] = {'received': data, 'lines': [ln + b'\n' for ln in lines[:-1]] + ([lines[-1]] if lines[-1] else []),
+                     'frames_sent': socks[name].calls, 'script': disps[name].script, 'calls': disps[name].calls}
+    res['errors'] = out['errors']
+    res['steps'] = out['steps']
+    return res
+
+
+def evaluate_concurrent(ctx, case):
+    """run and judge one concurrent case; returns {'bad': None | {...}, 'res': ...}"""
+    res = run_concurrent(case)
+    streams = {'A': b''.join(bytes.fromhex(c) for c in case['chunks']), 'B': b''.join(ln + b'\n' for ln in B_SCRIPT)}
+    reqs = []
+    for name in 'AB':
+        outs = res[name]['lines']
+        reqs.append({'p': 'C07', 'k': 'judge', 'stream': hx(streams[name]), 'outs': [hx(o) for o in outs],
+                     'flags': [line_flags(o, True) for o in outs]})
+    reqs.append({'p': 'C07', 'k': 'judge_events', 'outs': [hx(o) for o in res['B']['lines']], 'subscribed': [hx(x) for x in B_SUBSCRIBED]})
+    ja, jb, je = ctx.driver.batch(reqs)
+    for a in (ja, jb, je):
+        if 'driver_error' in a:
+            raise RuntimeError(a)
+    bad = None
+    if res['errors']:
+        bad = {'clause': 'thread_died', 'errors': res['errors']}
+    elif ja['bad'] is not None:
+        bad = dict(ja['bad'], conn='A')
+    elif jb['bad'] is not None:
+        bad = dict(jb['bad'], conn='B')
+    elif je['bad'] is not None:
+        bad = {'clause': 'no_leak', 'i': je['bad'], 'conn': 'B'}
+    return {'bad': bad, 'res': res, 'case': case}
+
+
+def gen_concurrent(rng):
+    lines = []
+    for _ in range(rng.choice([2, 3, 4, 6])):
+        ln = gen_request(rng, True)
+        if rng.random() < 0.4:
+            ln = mutate(rng, ln)
+        lines.append(ln)
+    if rng.random() < 0.7:
+        lines.insert(rng.randrange(len(lines) + 1), rng.choice([b'activate', b'activate m', b'activate m:value', b'logging . "debug"']))
+    stream = b''.join(ln + b'\n' for ln in lines)
+    return {'kind': 'concurrent', 'chunks': [hx(c) for c in segment(rng, stream) if c], 'sched_seed': rng.randrange(1 << 30),
+            'preempt': rng.choice([0.2, 0.5, 0.8]), 'piece': rng.choice([1, 3, 5, 16, 4096]), 'updates': rng.choice([2, 6]),
+            'b_one_chunk': rng.random() < 0.5}
 
 
 def oracle_tables(ctx, streams):
@@ -388,7 +541,7 @@ def evaluate(ctx, cases):
         utf8, js = tables[s]
         reqs.append({'p': 'C07', 'k': 'serve', 'chunks': c['chunks'], 'utf8': utf8, 'json': js, 'script': im['script']})
         reqs.append({'p': 'C07', 'k': 'judge', 'stream': hx(s), 'outs': [hx(o) for o in im['outs']],
-                     'flags': [line_flags(o) for o in im['outs']]})
+                     'flags': [line_flags(o, c['disp']['kind'] == 'real') for o in im['outs']]})
     ans = ctx.driver.batch(reqs)
     out = []
     for i, (c, im, s) in enumerate(zip(cases, impls, streams)):
@@ -626,7 +779,7 @@ def signature(ev):
         return 'C07:one_reply_per_line:count'
     if clause == 'reply_fits':
         k = bad['k']
-        replies = [o for o in ev['impl']['outs'] if obs_frame(o)['a'] not in (hx(b'_'), hx(b'update'), hx(b'log'))]
+        replies = [o for o in ev['impl']['outs'] if obs_frame(o)['a'] not in async_actions()]
         rep = obs_frame(replies[k]) if k < len(replies) else None
         if rep and bytes.fromhex(rep['a']).startswith(b'error_'):
             return 'C07:reply_fits:error-reply'
@@ -635,6 +788,8 @@ def signature(ev):
         data = (ev['impl']['outs'][bad['i']].strip().split(b' ', 2) + [b'', b''])[2]
         import re
         unquoted = re.sub(rb'"(\\.|[^"\\])*"', b'""', data)
+        if re.search(rb'"": ?-?(NaN|Infinity)\}', unquoted):
+            return 'C07:strict_json:nonfinite-timestamp'     # the qualifier {"t": NaN}
         return 'C07:strict_json:' + ('nan-token' if re.search(rb'NaN|Infinity', unquoted) else 'other')
     if clause == 'valid_utf8':
         return 'C07:valid_utf8'
@@ -667,7 +822,9 @@ def shrink(ctx, ev):
 
 def describe(ev):
     bad = ev['judge']['bad']
-    outs = [o[:120] for o in ev['impl']['outs']][:6]
+    outs = [o[:120] for o in ev['impl']['outs']]
+    if len(outs) > 8:
+        outs = outs[:4] + [f'... {len(outs) - 7} more ...'] + outs[-3:]
     txt = f'{bad}: chunks={[bytes.fromhex(c)[:80] for c in ev["case"]["chunks"]][:6]} dispatcher={ev["case"]["disp"]} sent={outs}'
     if ev['impl']['died']:
         txt += ' HANDLER DIED: ' + ev['impl']['died_text'].strip().splitlines()[-1]
@@ -682,16 +839,20 @@ def run(ctx):
                 'white space incl. Unicode, CR/LF variants, blank lines, 1-64 KiB lines), delivered to the real TCPRequestHandler in '
                 'random segmentations (all 2^(n-1) segmentations of the short streams), with a stub dispatcher doing per call one of '
                 '27 things (fitting reply, reply after events, 6 SECoP errors, 6 other exceptions, 9 kinds of unusable return value) '
-                'or the real Dispatcher over a two-module node; non-trivial = at least 2 request lines in at least 2 chunks with at '
+                'or the real Dispatcher over a two-module node; plus concurrent cases (connection A with such a stream, connection B with a fixed '
+                'script, a third thread announcing updates, all on one real dispatcher under the deterministic scheduler with partial '
+                'writes); non-trivial = at least 2 request lines in at least 2 chunks with at '
                 'least one positive and one error reply')
     rng = ctx.rng
     big = ctx.tier == 'thorough' or ctx.escalated
     cases = []
+    conc_corpus = []
     cdir = os.path.join(ctx.verif, 'corpus', 'C07')
     if os.path.isdir(cdir):
         for fn in sorted(os.listdir(cdir)):
             if fn.endswith('.json'):
-                cases.append(json.load(open(os.path.join(cdir, fn)))['case'])
+                c = json.load(open(os.path.join(cdir, fn)))['case']
+                (conc_corpus if c.get('kind') == 'concurrent' else cases).append(c)
     ncorpus = len(cases)
     # exhaustive segmentations of short streams
     shorts = list(SHORT_STREAMS)
@@ -709,11 +870,18 @@ def run(ctx):
         real = rng.random() < 0.2
         stream = gen_stream(rng, real, big)
         disp = {'kind': 'real', 'nan': rng.random() < 0.1} if real else {'kind': 'stub', 'plan': gen_plan(rng)}
+        if real and rng.random() < 0.1:
+            disp['ts'] = rng.choice(['nan', 'inf', '-inf'])
+        if len(stream) < 300 and rng.random() < 0.02:
+            disp['detailed'] = True      # detailed_errors=True: error reports keep exception text and stack dump
+            if 'plan' in disp:           # an `error_x` triple without report is sent as it is when reports are not cleared
+                disp['plan'] = [k if k != 'errshape' else 'none' for k in disp['plan']]
         for _ in range(2 if len(stream) < 3000 else 1):
             cases.append(case_of(segment(rng, stream), disp))
 
     shrunk = 0
     seen_sigs = set()
+    asy = async_actions()
     for lo in range(0, len(cases), 500):
         evs = evaluate(ctx, cases[lo:lo + 500])
         for ev in evs:
@@ -722,11 +890,14 @@ def run(ctx):
             im = ev['impl']
             case = ev['case']
             obs = [obs_frame(o) for o in im['outs']]
-            nerr = sum(1 for o in obs if bytes.fromhex(o['a']).startswith(b'error_'))
-            npos = sum(1 for o in obs if not bytes.fromhex(o['a']).startswith(b'error_')
-                       and o['a'] not in (hx(b'_'), hx(b'update'), hx(b'log')))
+            nerr = sum(1 for o in obs if bytes.fromhex(o['a']).startswith(b'error_') and o['a'] not in asy)
+            npos = sum(1 for o in obs if not bytes.fromhex(o['a']).startswith(b'error_') and o['a'] not in asy)
+            res.count('lines.async', sum(1 for o in obs if o['a'] in asy))
             nlines = ev['stream'].count(b'\n')
             res.count('dispatcher.' + case['disp']['kind'])
+            if case['disp'].get('detailed'):
+                res.count('detailed_errors=True')
+                res.count('detailed_errors=True.reports-with-traceback', sum(1 for o in im['outs'] if b'"traceback": "' in o))
             res.count('lines=%s' % (nlines if nlines < 4 else '4+'))
             res.count('chunks=%s' % (len(case['chunks']) if len(case['chunks']) < 4 else '4+'))
             res.count('replies.positive', npos)
@@ -758,11 +929,44 @@ def run(ctx):
                 res.violations.append({'sig': sig, 'what': describe(ev), 'case': ev['case'],
                                        'detail': {'verdict': ev['judge']['bad'], 'died': ev['impl']['died_text']}})
     res.notes.append(f'{ncorpus} corpus cases run first')
+    # ---------- concurrency: two connections + an updater thread on one real dispatcher, scheduled deterministically ----------
+    conc = [c for c in conc_corpus]
+    for _ in range(ctx.budget(80, 1200)):
+        conc.append(gen_concurrent(rng))
+    for case in conc:
+        ev = evaluate_concurrent(ctx, case)
+        res.evaluations += 1
+        res.traces += 2
+        res.count('concurrent.cases')
+        res.count('concurrent.piece=%s' % case.get('piece'))
+        r = ev['res']
+        nupd_a = sum(1 for ln in r['A']['lines'] if ln.startswith(b'update '))
+        res.count('concurrent.A-got-events' if nupd_a else 'concurrent.A-no-events')
+        if nupd_a and len(r['A']['lines']) > nupd_a:
+            res.nontriv(case)
+        if ev['bad'] is not None:
+            sig = 'C07:concurrent:' + ev['bad']['clause']
+            if sig in seen_sigs:
+                continue
+            seen_sigs.add(sig)
+            res.violations.append({'sig': sig, 'what': f"{ev['bad']}: concurrent case {case}; A received {r['A']['lines'][:8]}; "
+                                                       f"B received {r['B']['lines'][:8]}",
+                                   'case': case, 'detail': {'verdict': ev['bad'], 'steps': r['steps']}})
     return res
 
 
 def replay(ctx, rp):
     case = rp['case']
+    if case.get('kind') == 'concurrent':
+        ev = evaluate_concurrent(ctx, case)
+        print('case   :', case)
+        for name in 'AB':
+            print(f'{name} received:')
+            for ln in ev['res'][name]['lines']:
+                print('   ', ln[:160])
+        print('thread errors:', ev['res']['errors'], 'steps:', ev['res']['steps'])
+        print('judge  :', ev['bad'])
+        return 0 if ev['bad'] is None else 1
     ev = evaluate(ctx, [case])[0]
     print('chunks :', [bytes.fromhex(c)[:200] for c in case['chunks']])
     print('disp   :', case['disp'])
